@@ -36,12 +36,15 @@ DocsOf(hits) == [i \in DOMAIN hits |-> hits[i][1]]
 TermFreq(idx, f, t) == LET RECURSIVE S(_)
                            S(d) == IF d < 0 THEN 0 ELSE S(d - 1) + Tf(idx, d, f, t)
                        IN S(Len(idx.docs) - 1)
-SugCand(idx, o) == {t \in Lexicon(idx, o.f) : /\ DL(o.word, t) <= o.k
+\* (o.lev = TRUE is NOT the property: plain Levenshtein distance, used only to recognise the recorded finding
+\* "segment readers expand without transpositions" precisely)
+SugDist(o, a, b) == IF "lev" \in DOMAIN o /\ o.lev THEN Lev(a, b) ELSE DL(a, b)
+SugCand(idx, o) == {t \in Lexicon(idx, o.f) : /\ SugDist(o, o.word, t) <= o.k
                                               /\ Len(t) >= Min2(o.p, Len(o.word))
                                               /\ SubSeq(t, 1, Min2(o.p, Len(o.word))) = SubSeq(o.word, 1, Min2(o.p, Len(o.word)))}
 SugBetter(idx, o, a, b) ==      \* a is strictly better than b
-  \/ DL(o.word, a) < DL(o.word, b)
-  \/ (DL(o.word, a) = DL(o.word, b) /\ TermFreq(idx, o.f, a) > TermFreq(idx, o.f, b))
+  \/ SugDist(o, o.word, a) < SugDist(o, o.word, b)
+  \/ (SugDist(o, o.word, a) = SugDist(o, o.word, b) /\ TermFreq(idx, o.f, a) > TermFreq(idx, o.f, b))
 SuggestFacts(idx, o) ==
   LET L == o.list
       cand == SugCand(idx, o)
@@ -49,6 +52,8 @@ SuggestFacts(idx, o) ==
   IN [existing_within_distance |-> LS \subseteq cand /\ Cardinality(LS) = Len(L),
       not_the_word_itself |-> o.word \notin LS,
       closer_then_more_frequent_first |-> \A i, j \in DOMAIN L : i < j => ~SugBetter(idx, o, L[j], L[i]),
+      \* a list shorter than the limit was not cut: it names every candidate
+      nothing_missing_below_the_limit |-> Len(L) < o.limit => (cand \ {o.word}) \subseteq LS,
       limit_keeps_the_best |-> /\ Len(L) <= o.limit
                                /\ \A t \in (cand \ {o.word}) \ LS : /\ Len(L) >= o.limit
                                                                      /\ \A x \in LS \ {o.word} : ~SugBetter(idx, o, t, x)]
@@ -179,7 +184,7 @@ ObsOK(idx, m, q, o) ==
     [] o.kind = "correct" -> LET F == CorrectFacts(idx, o) IN
          F.one_term_per_word /\ F.words_corrected_as_specified /\ F.string_agrees_with_query
     [] o.kind = "suggest" -> LET F == SuggestFacts(idx, o) IN
-                                /\ F.existing_within_distance /\ F.not_the_word_itself
+                                /\ F.existing_within_distance /\ F.not_the_word_itself /\ F.nothing_missing_below_the_limit
                                 /\ F.closer_then_more_frequent_first /\ F.limit_keeps_the_best
     [] o.kind = "flag" -> o.value      \* a boolean fact observed on the code that must be true (e.g. idempotence)
     [] o.kind = "atleast" -> o.n >= Cardinality(DOMAIN m)     \* estimate_size() is an upper bound
